@@ -437,6 +437,42 @@ def badIndent (first line : Str) : Str :=
 
 def addSub (c : Cmd) (s : Cmd) : Cmd := { c with sub := c.sub ++ [s] }
 
+/-- Indentation bookkeeping of a sub command line: the indentation to strip and the remembered
+first sub command line.  The snapshot prints `prev.sub[0].parsed` in the error message. -/
+def subIndent (fixed : Bool) (st : LoopSt) (pc : Cmd) (line : Str) : Res (Nat × Str) :=
+  if st.isFirstSub then
+    match getIndent line with
+    | some k => .ok (k, line)
+    | none => .panic (.slice "line[indent:]")      -- indent = -1
+  else
+    let bad := match getIndent line with
+      | some k => decide (k < st.indent)
+      | none => true
+    if bad then
+      if fixed then .diag (badIndent st.firstSub line)
+      else match pc.sub with
+        | s0 :: _ => .diag (badIndent (List.replicate st.indent ' ' ++ s0.parsed) line)
+        | [] => .panic (.index "prev.sub[0]")
+    else .ok (st.indent, st.firstSub)
+
+/-- `line = line[indent:]`, `line[0] == ' '`, `strings.Fields`, `matchCmd` on the sub templates. -/
+def subBody (ds : List Descr) (st : LoopSt) (pc : Cmd) (others : List Cmd) (line : Str)
+    (indent : Nat) (firstSub : Str) : Res LoopSt :=
+  if indent ≤ line.length then
+    match line.drop indent with
+    | [] => .panic (.index "line[0]")
+    | d :: body =>
+      let st' := { st with isFirstSub := false, indent := indent, firstSub := firstSub }
+      if d = ' ' then .ok st'
+      else
+        let descr := (ds.getD pc.descr { pre := [], template := [], ignore := false }).sub
+        (matchCmd [] (fields (d :: body))
+            ((indexed descr).map fun x => (x.1, x.2.1, x.2.2))).bind fun oc =>
+          match oc with
+          | none => .ok st'
+          | some sc => .ok { st' with cmds := addSub pc { sc with app := st.isAppend } :: others }
+  else .panic (.slice "line[indent:]")
+
 /-- One iteration of the `for len(data) > 0` loop of `ParseConfig`, after `bytes.Cut`. -/
 def parseLine (fixed : Bool) (ds : List Descr) (isRaw : Bool) (st : LoopSt) (raw : Str) : Res LoopSt :=
   let line := trimRight raw
@@ -457,37 +493,8 @@ def parseLine (fixed : Bool) (ds : List Descr) (isRaw : Bool) (st : LoopSt) (raw
       match st.cmds with
       | [] => .ok st      -- unreachable: prev = true only after a push
       | pc :: others =>
-        -- indentation bookkeeping
-        let r : Res (Nat × Str) :=
-          if st.isFirstSub then
-            match getIndent line with
-            | some k => .ok (k, line)
-            | none => .panic (.slice "line[indent:]")      -- indent = -1
-          else
-            let bad := match getIndent line with
-              | some k => decide (k < st.indent)
-              | none => true
-            if bad then
-              if fixed then .diag (badIndent st.firstSub line)
-              else match pc.sub with
-                | s0 :: _ => .diag (badIndent (List.replicate st.indent ' ' ++ s0.parsed) line)
-                | [] => .panic (.index "prev.sub[0]")
-            else .ok (st.indent, st.firstSub)
-        r.bind fun (indent, firstSub) =>
-          if indent ≤ line.length then
-            match line.drop indent with
-            | [] => .panic (.index "line[0]")
-            | d :: body =>
-              let st' := { st with isFirstSub := false, indent := indent, firstSub := firstSub }
-              if d = ' ' then .ok st'
-              else
-                let descr := (ds.getD pc.descr { pre := [], template := [], ignore := false }).sub
-                (matchCmd [] (fields (d :: body))
-                    ((indexed descr).map fun x => (x.1, x.2.1, x.2.2))).bind fun oc =>
-                  match oc with
-                  | none => .ok st'
-                  | some sc => .ok { st' with cmds := addSub pc { sc with app := st.isAppend } :: others }
-          else .panic (.slice "line[indent:]")
+        (subIndent fixed st pc line).bind fun (indent, firstSub) =>
+          subBody ds st pc others line indent firstSub
 
 /-- The whole loop. -/
 def parseLines (fixed : Bool) (ds : List Descr) (isRaw : Bool) : LoopSt → List Str → Res LoopSt
